@@ -146,4 +146,7 @@ def dField (p : MediaPlaylist) : String :=
 def aField (p : MasterPlaylist) : String :=
   "A:" ++ list (fun v => list nat (p.associatedWith v)) p.variant_streams
 
+def sField (p : MasterPlaylist) : String :=
+  "S:" ++ list nat p.audioStreams ++ "/" ++ list nat p.videoStreams ++ "/" ++ list nat p.unassociatedStreams
+
 end Hls.Obs
